@@ -109,6 +109,7 @@ inductive Micro
   | cAlloc | cIntr | cPtr | cSize | cSigInt | cSigTerm | cStop0
   | setH (h : Nat) | setD (d : Nat)
   | work
+  | nreg (h d : Nat)      -- `interrupter()->SetHandler(h, d)` while no handler object exists: `BasicSolver::SetHandler` = no-op
   | dIntr | dStop1 | dH0 | dSize0 | dFree
   deriving DecidableEq, Repr
 
@@ -123,6 +124,7 @@ def applyMicro (s : St) : Micro → St
   | .setH h => { s with handler := h }
   | .setD d => { s with data := d }
   | .work => s
+  | .nreg _ _ => s
   | .dIntr => { s with intr := .self }
   | .dStop1 => { s with stop := 1 }
   | .dH0 => { s with handler := 0 }
@@ -217,6 +219,7 @@ def Layout.current : Layout := Layout.fixed
 
 inductive Macro
   | ctor | reg (h d : Nat) | work | dtor
+  | nreg (h d : Nat)      -- registration attempt while no handler object exists
   deriving DecidableEq, Repr
 
 def ctorSteps (L : Layout) : List Micro :=
@@ -231,6 +234,7 @@ def expand (L : Layout) : Macro → List Micro
   | .reg h d => regSteps L h d
   | .work => [.work]
   | .dtor => dtorSteps
+  | .nreg h d => [.nreg h d]
 
 def expandProg (L : Layout) : List Macro → List Micro
   | [] => []
@@ -284,6 +288,7 @@ inductive PC
 def pcNext (L : Layout) : PC → Micro → Option PC
   | .idle, .cAlloc => some .cA
   | .idle, .work => some .idle
+  | .idle, .nreg _ _ => some .idle
   | .cA, .cIntr => some .cI
   | .cI, .cPtr => some .cP
   | .cP, .cSize => some .cZ
